@@ -6,10 +6,22 @@ records `send_record()` / `disconnect()` and whose transport exercises flow cont
 the connection (`rtt`, every k-th dropped, silent from a time on); connection loss, reconnection
 and stop are scheduled by the case.  All times are multiples of TICK = 1/8 s (exact in binary
 floating point); everything compared is an integer number of ticks.
+
+The random source.  The Manager draws the id of every keep-alive Ping with `os.urandom(4)`.  The harness hands the
+Manager module its own `os` (`_Os`, inside this process only) whose `urandom(4)` returns what the CASE says: first the
+4-byte values listed in `case["draws"]` (any values, repeats included), then `case["fresh_from"]`, `+1`, `+2`, … modulo
+2**32 (skipping values already handed out).  So the 4 bytes are an input like the schedule: boundary values (ff ff ff fd,
+ff ff ff ff, 00 00 00 00, 7f ff ff ff, 80 00 00 00), sequences that cross 2**32 or 2**31 in a long session, the same
+bytes again after the ping was answered, and the same bytes while that ping is still outstanding.  The model is told the
+fixed draws as first-occurrence indices (`rnd k k …`), never the bytes: ids are opaque.  A draw that equals an id still
+in `_pings_outstanding` is the one point the property's statement cannot cover on the current tree (`send_ping` asserts,
+the expiry callback dies: `WV.Props.C16.duplicate_id_kills_the_monitor`); the real code IS run there and compared with
+the model, but the oracle judges the run only up to that draw (tag `id-collision`).
 """
 import contextlib
 import io
 import math
+import os as _os
 import sys
 import time as _time
 from unittest import mock
@@ -34,12 +46,16 @@ from ..fakes import ToyNoise
 ID = "C16"
 PROP_MODULES = ["WV.Props.C16"]
 TRUSTED = ["Twisted DelayedCall/Clock semantics (a call runs once now >= its time; delay() adds to the deadline)",
-           "os.urandom(4) ping ids are fresh (modelled as a counter)",
+           "os.urandom(4) returns 4 arbitrary bytes (an input of the case; NOT assumed fresh: the theorems that need "
+           "'the id drawn is not outstanding' carry it as the hypothesis freshNext, the harness runs the real code at "
+           "the excluded point too and stops judging there)",
            "the transport reports connectionLost asynchronously after disconnect() (loss is a separate event)",
            "Connector (mocked): calls connector_connection_made only while the Manager is CONNECTING"]
 RULE = ("leader/follower Manager over task.Clock; intervals {0.5, 1, 30} s; peer policies: rtt from a grid around "
         "0/T/2T (before/at/after an expiry), every k-th ping unanswered, silent from a time on, stale/duplicate/"
-        "unknown pongs; transport flow control (the real Outbound.pauseProducing/resumeProducing called as the connection's "
+        "unknown pongs; the 4 random bytes of every ping id fixed by the case: boundary values, sequences crossing 2**32 / 2**31, "
+        "repeats of answered ids, duplicates of outstanding ids (excluded point, compared but not judged), long sessions "
+        "(hundreds of answered pings, then silence); transport flow control (the real Outbound.pauseProducing/resumeProducing called as the connection's "
         "transport would) before/at/after expiries, for part of an interval, across loss/reconnect; loss, reconnect and stop "
         "at arbitrary ticks; thorough adds exhaustive small schedules "
         "(T=4 ticks, every rtt x silence point x loss/stop point); non-trivial = at least one timer expiry observed; "
@@ -48,6 +64,66 @@ RULE = ("leader/follower Manager over task.Clock; intervals {0.5, 1, 30} s; peer
 TICK = 0.125
 MAX_OPS = 1500                 # operation lines per case
 INTERVALS = [4, 8, 240]        # 0.5 s, 1 s, 30 s
+FRESH_FROM = 0x5a000000        # where the random source starts when the case does not say
+BOUNDARY_IDS = (b"\x00\x00\x00\x00", b"\xff\xff\xff\xff", b"\x7f\xff\xff\xff", b"\x80\x00\x00\x00")
+
+
+class _Rand:
+    """the case's random source: what `os.urandom(4)` returns inside wormhole._dilation.manager"""
+
+    def __init__(self, draws, fresh_from):
+        self.script = [bytes.fromhex(x) for x in draws]
+        self.nscript = len(self.script)
+        self.fresh = fresh_from % (1 << 32)
+        self.given = []          # every 4-byte value handed out, in order
+        self.manager = None
+        self.collisions = []     # (index of the draw, value): equal to an id outstanding at that moment
+        self.repeats = 0         # values handed out again while NOT outstanding
+        self.wrapped = False
+
+    def canonical(self):
+        """the fixed draws as first-occurrence indices (what the model is told)"""
+        seen, out = [], []
+        for v in self.script:
+            if v not in seen:
+                seen.append(v)
+            out.append(seen.index(v))
+        return out
+
+    def urandom(self, n):
+        if n != 4:
+            return _os.urandom(n)
+        if self.script:
+            v = self.script.pop(0)
+        else:
+            used = set(self.given)
+            while True:
+                v = self.fresh.to_bytes(4, "big")
+                self.fresh = (self.fresh + 1) % (1 << 32)
+                if self.fresh == 0:
+                    self.wrapped = True
+                if v not in used:
+                    break
+        m = self.manager
+        if m is not None and v in m._pings_outstanding:
+            self.collisions.append((len(self.given), v))
+        elif v in self.given:
+            self.repeats += 1
+        self.given.append(v)
+        return v
+
+
+class _Os:
+    """`os` as wormhole._dilation.manager sees it during a case"""
+
+    def __init__(self, rand):
+        self._rand = rand
+
+    def urandom(self, n):
+        return self._rand.urandom(n)
+
+    def __getattr__(self, name):
+        return getattr(_os, name)
 
 
 class OffGrid(Exception):
@@ -192,8 +268,9 @@ def _frame(b):
 
 
 class World:
-    def __init__(self, T, leader, real=False):
+    def __init__(self, T, leader, real=False, rand=None):
         self.T = T
+        self.rand = rand or _Rand([], FRESH_FROM)
         self.leader = leader
         self.real = real             # real Connector + DilatedConnectionProtocol instead of stand-ins
         self.closed = set()          # connections whose transport close was delivered (connectionLost)
@@ -206,10 +283,13 @@ class World:
         self.m = dm.Manager(self.send, my, None, self.clock, self.eq, Cooperator(scheduler=self.eq.eventually),
                             ["ged"], T * TICK, {}, no_listen=True)
         self.m.got_dilation_key(b"k" * 32)
+        self.rand.manager = self.m
         self.conns = []
-        self.ids = []            # canonical index -> real ping id
-        self.sent_at = []        # canonical index -> time registered (ticks)
+        self.ids = []            # canonical index -> real ping id (first occurrence)
+        self.insts = []          # every registration of a ping in _pings_outstanding, in order: (canonical index, tick)
+        self.live = {}           # ping id -> the dict value of the registration we know (identity tells a re-registration)
         self.wire = []           # (cid, idx, t)
+        self.wire_k = []         # for each entry of `wire`: the registration (index into insts) it belongs to, or -1
         self.drops = []          # (cid, t) disconnect() from _signal_reconnect
         self.abandons = []       # (cid, t) disconnect() from abandon_connection
         self.other_disc = []     # disconnect() from anywhere else
@@ -241,6 +321,7 @@ class World:
         self.scan_pings()
         idx = self.ids.index(ping_id) if ping_id in self.ids else -1
         self.wire.append((cid, idx, self.now()))
+        self.wire_k.append(self.latest_inst(idx))
 
     def on_disconnect(self, conn, caller):
         rec = (conn.cid, self.now())
@@ -256,10 +337,25 @@ class World:
             self.other_disc.append(rec + (caller,))
 
     def scan_pings(self):
-        for k in self.m._pings_outstanding:
+        out = self.m._pings_outstanding
+        for k in [k for k in self.live if k not in out]:
+            del self.live[k]
+        for k, v in out.items():
             if k not in self.ids:
                 self.ids.append(k)
-                self.sent_at.append(self.now())
+            if self.live.get(k) is not v:        # a new registration (the same 4 bytes may be registered again later)
+                self.live[k] = v
+                self.insts.append((self.ids.index(k), self.now()))
+
+    @property
+    def sent_at(self):
+        return [t for _, t in self.insts]
+
+    def latest_inst(self, idx):
+        for j in range(len(self.insts) - 1, -1, -1):
+            if self.insts[j][0] == idx:
+                return j
+        return -1
 
     def timers(self):
         """pending DelayedCalls other than the eventual queue's zero-delay turn"""
@@ -319,7 +415,7 @@ class World:
         wire = ";".join(f"{c}:{i}@{t}" for c, i, t in self.wire[-4:])
         drops = ";".join(f"{c}@{t}" for c, t in self.drops)
         ab = ";".join(f"{c}@{t}" for c, t in self.abandons)
-        return (f"t={self.now()} M={automat_state(m)} role={role} TT={tt} timer={timer} conn={self.cid_of(m._connection)} "
+        return (f"t={self.now()} q={len(self.rand.script)} M={automat_state(m)} role={role} TT={tt} timer={timer} conn={self.cid_of(m._connection)} "
                 f"out={self.cid_of(m._outbound._connection)} paused={'true' if m._outbound._paused else 'false'} "
                 f"rp={'true' if self.read_paused() else 'false'} cons=[{','.join(str(k) for k in sorted(getattr(x, 'k', -1) for x in m._inbound._paused_subchannels))}] pings=[{pings}] nwire={len(self.wire)} wire=[{wire}] "
                 f"drops=[{drops}] abandons=[{ab}]")
@@ -470,18 +566,23 @@ class World:
 def run_case(case):
     T = case["T"]
     leader = case["leader"]
-    if case.get("world") == "real":
-        # REAL Connector + DilatedConnectionProtocol (+ _Framer/_Record) under the real Manager; only Noise is the toy AEAD
-        with mock.patch.object(dconn, "build_noise", ToyNoise):
-            return _run(case, T, leader, real=True)
-    with mock.patch.object(dm, "Connector", mock.Mock()):
-        return _run(case, T, leader)
+    rand = _Rand(case.get("draws") or [], case.get("fresh_from", FRESH_FROM))
+    # the Manager module's `os` for the duration of the case: its urandom(4) is the case's random source
+    with mock.patch.object(dm, "os", _Os(rand)):
+        if case.get("world") == "real":
+            # REAL Connector + DilatedConnectionProtocol (+ _Framer/_Record) under the real Manager; only Noise is the toy AEAD
+            with mock.patch.object(dconn, "build_noise", ToyNoise):
+                return _run(case, T, leader, rand, real=True)
+        with mock.patch.object(dm, "Connector", mock.Mock()):
+            return _run(case, T, leader, rand)
 
 
-def _run(case, T, leader, real=False):
-    w = World(T, leader, real=real)
+def _run(case, T, leader, rand, real=False):
+    canon = rand.canonical()
+    w = World(T, leader, real=real, rand=rand)
     lines, exp = [f"cfg {T}"], ["ok"]
     tags = [f"T={T}", "leader" if leader else "follower", "world:real" if real else "world:stand-in"]
+    seen_coll = [0]
     events = []          # oracle's view of the run: (kind, time, data)
     illegal = [None]     # first op the environment was not entitled to
     raised = []          # exceptions out of legal operations
@@ -495,12 +596,20 @@ def _run(case, T, leader, real=False):
     nmade = [0]
     nbad = [0]
     held = []            # Pongs waiting in the socket buffer of a read-paused connection
-    at_socket = {}       # ping idx -> tick its Pong reached the host while the connection was paused for no consumer
+    at_socket = {}       # ping registration -> tick its Pong reached the host while the connection was paused for no consumer
     expiries = [0]
     paused_expiry = [0]
     late_expiry = [0]
 
     def record(opline, err, kind, data=None, legal_now=True):
+        if len(rand.collisions) > seen_coll[0]:
+            # the random source returned the id of a ping that is still outstanding: the excluded point.  The real code
+            # is compared with the model here and afterwards, but the property is judged only up to this operation.
+            seen_coll[0] = len(rand.collisions)
+            if illegal[0] is None:
+                illegal[0] = (opline, "id-collision")
+                tags.append("id-collision")
+            legal_now = False
         lines.append(opline)
         s = w.summary()
         exp.append((err + " " if err else "") + s)
@@ -511,9 +620,9 @@ def _run(case, T, leader, real=False):
         w.scan_pings()
         cid0, n0 = before[0]
         if cid0 is not None and legal_now and illegal[0] is None:
-            for idx in range(n0, len(w.ids)):
-                if not any(c == cid0 and i == idx for c, i, _ in w.wire):
-                    unwritten.append((idx, w.now(), cid0, opline))
+            for j in range(n0, len(w.insts)):
+                if not any(c == cid0 and k == j for (c, _, _), k in zip(w.wire, w.wire_k)):
+                    unwritten.append((w.insts[j][0], w.now(), cid0, opline))
         # the oracle judges the run up to (not including) the first illegal operation
         events.append((kind, w.now(), data, not (legal_now and illegal[0] is None), snapshot()))
 
@@ -522,7 +631,7 @@ def _run(case, T, leader, real=False):
         return dict(conn=None if m._connection is None else getattr(m._connection, "cid", -1),
                     timer=None if (m._timer is None or not m._timer.active()) else m._timer.getTime(),
                     clock_timers=[c.getTime() for c in w.timers()],
-                    state=automat_state(m), npings=len(w.ids), stop=w.stop_called, ndrops=len(w.drops),
+                    state=automat_state(m), npings=len(w.insts), stop=w.stop_called, ndrops=len(w.drops),
                     dead=(m._connection is not None and getattr(m._connection, "cid", -1) in w.closed),
                     rp=w.read_paused(), cons=sorted(w.cons),
                     tt=automat_state(m._traffic) if m._traffic is not None else None)
@@ -561,7 +670,7 @@ def _run(case, T, leader, real=False):
         """`closed`: for "lost", the connection whose transport really closed (the environment owes that report exactly
         once per connection, whatever the Manager thinks it is using by then)"""
         w.scan_pings()
-        before[0] = (conn_now(), len(w.ids))
+        before[0] = (conn_now(), len(w.insts))
         if o[0] == "lost":
             if closed is None:
                 closed = conn_now()
@@ -576,7 +685,7 @@ def _run(case, T, leader, real=False):
             data = dict(closed=closed, using=before[0][0])
         if o[0] in ("pong", "badseg"):
             w.scan_pings()
-            data = (o[1], o[1] < len(w.ids) and w.ids[o[1]] in w.m._pings_outstanding)
+            data = (o[1], o[1] < len(w.ids) and w.ids[o[1]] in w.m._pings_outstanding, w.latest_inst(o[1]))
         if o[0] == "badseg" and legal_now and conn_now() is not None:
             w.reported.add(conn_now())     # at HEAD the reactor drops the transport: its close is reported here
         err = w.op(o, closed=closed)
@@ -610,7 +719,7 @@ def _run(case, T, leader, real=False):
                     k = dt
             tb = [c.getTime() for c in w.timers()]
             w.scan_pings()
-            before[0] = (conn_now(), len(w.ids))
+            before[0] = (conn_now(), len(w.insts))
             was_paused = w.m._outbound._paused and w.m._connection is not None
             err = w.advance_ticks(k)
             fired = [t for t in tb if t <= w.clock.seconds() + 1e-9]
@@ -627,7 +736,7 @@ def _run(case, T, leader, real=False):
         tb = [c.getTime() for c in w.timers()]
         t0 = w.now()
         w.scan_pings()
-        before[0] = (conn_now(), len(w.ids))
+        before[0] = (conn_now(), len(w.insts))
         err = w.call(lambda: w.clock.advance(n * TICK))
         fired = [t for t in tb if t <= w.clock.seconds() + 1e-9]
         if fired:
@@ -725,8 +834,8 @@ def _run(case, T, leader, real=False):
                 if w.read_paused():
                     # the Pong has reached the Leader's host but the paused transport does not read it.  If no consumer
                     # is paused the pause is not the application's doing: the peer HAS answered.
-                    if not w.cons and o[1] not in at_socket:
-                        at_socket[o[1]] = w.now()
+                    if not w.cons and w.latest_inst(o[1]) not in at_socket:
+                        at_socket[w.latest_inst(o[1])] = w.now()
                     held.append(o)
                     continue
                 nbad[0] += 1
@@ -757,6 +866,10 @@ def _run(case, T, leader, real=False):
                             break
             react(policy, seg_start)
 
+    if canon:
+        # what the next calls of os.urandom(4) will return, as first-occurrence indices (the model never sees the bytes)
+        record("rnd " + " ".join(str(k) for k in canon), None, "rnd")
+        tags.append("draws:fixed")
     for seg in case["script"]:
         k = seg[0]
         if k == "run":
@@ -798,6 +911,19 @@ def _run(case, T, leader, real=False):
         tags.append("stall")
     if late_expiry[0]:
         tags.append("late-expiry")
+    if any(v in BOUNDARY_IDS for v in rand.given):
+        tags.append("ids:boundary-value")
+    if rand.wrapped and any(v == b"\x00\x00\x00\x00" for v in rand.given):
+        tags.append("ids:cross-2^32")
+    if b"\x7f\xff\xff\xff" in rand.given and b"\x80\x00\x00\x00" in rand.given:
+        tags.append("ids:cross-2^31")
+    if rand.repeats:
+        tags.append("ids:repeat-of-answered")
+    if expiries[0] >= 100:
+        tags.append("long-session")
+    if len(rand.given) != len(w.insts) + len(rand.collisions):
+        # at HEAD every draw is one send_ping; anything else means the ids are made differently now
+        tags.append("draws!=pings")
     viol = oracle(w, events, T, leader, illegal[0], tags, at_socket)
     for idx, t, cid, opline in unwritten[:1]:
         viol.append(("ping-not-written",
@@ -889,12 +1015,12 @@ def oracle(w, events, T, leader, illegal, tags, at_socket=None):
                 # (a Pong stranded behind a record whose handler raised has reached the transport but not the monitor)
                 if kind == "pong":
                     cur["pongs"].append((t, data[0]))
-    answered = {}     # ping idx -> tick its Pong reached the Leader's transport (delivered to dataReceived / got_record)
+    answered = {}     # ping registration -> tick its Pong reached the Leader's transport (delivered to dataReceived / got_record)
     for kind, t, data, err, snap in legal:
         if kind in ("pong", "badseg") and data[1]:
-            answered[data[0]] = t
-    for idx, t in at_socket.items():
-        answered[idx] = min(t, answered.get(idx, t))
+            answered[data[2]] = t
+    for k, t in at_socket.items():
+        answered[k] = min(t, answered.get(k, t))
     for ep in epochs:
         cid = ep["cid"]
         ep_end = ep["end"] if ep["end"] is not None else end_t
@@ -905,12 +1031,12 @@ def oracle(w, events, T, leader, illegal, tags, at_socket=None):
         # (1) never drops a responsive connection: a drop at td needs a Ping that reached this
         #     connection a full interval ago or more and is still unanswered
         for td in drops:
-            ok = any(c == cid and st <= td - T and (idx not in answered or answered[idx] >= td)
-                     for c, idx, st in w.wire)
+            ok = any(c == cid and st <= td - T and (k not in answered or answered[k] >= td)
+                     for (c, idx, st), k in zip(w.wire, w.wire_k))
             if not ok:
                 add("dropped-responsive",
                     f"T={T} ticks: connection {cid} dropped at tick {td} although every Ping that reached it by tick {td - T} "
-                    f"had been answered (wire={[(i, s) for c, i, s in w.wire if c == cid][-4:]}, answered={ {i: a for i, a in answered.items()} })")
+                    f"had been answered (wire={[(i, s) for c, i, s in w.wire if c == cid][-4:]}, answered={ {w.insts[k][0] if 0 <= k < len(w.insts) else k: a for k, a in answered.items()} })")
         # (2) replaces a silent one: after the last pong (or the start) the drop comes no later than
         #     two intervals after the most recent ping sent by then
         #     — each interval counted from when the previous expiry was really handled: an expiry that falls
@@ -1061,6 +1187,7 @@ def corpus():
         for n in (1, 2):
             out.append(dict(R, script=SETUP + [["run", 7 * T, pol(rtt=1, bad_every=n, loss_delay=1, reconnect_delay=1)]]))
         out.append(dict(R, script=SETUP + [["run", 7 * T, pol(rtt=T - 1, bad_every=3)]]))
+    out += id_corpus()
     # stale / duplicate / unknown pongs
     out.append(dict(T=4, leader=True, script=SETUP + [["adv", 5], ["pong", 0], ["pong", 0], ["pong", 7], ["adv", 2], ["pong", 1],
                                                        ["adv", 12]]))
@@ -1076,6 +1203,64 @@ def corpus():
     out.append(dict(T=4, leader=True, script=[["start"], ["please"], ["stop"], ["made"]]))
     out.append(dict(T=4, leader=False, script=SETUP + [["reconnect"], ["adv", 3], ["lost"], ["made"], ["stop"], ["lost"]]))
     return out
+
+
+A, B, C = "a1b2c3d4", "00000000", "ffffffff"      # three ping ids for the fixed-draw cases
+
+
+def id_corpus(long_sessions=1):
+    """the random source as an input: the 4 bytes of every ping id"""
+    out = []
+    for T in INTERVALS:
+        # the first id at / just below / just above each boundary, the following ones counting up from there (so that a
+        # session of a few pings crosses 2**32 resp. 2**31 and uses 00000000 / ffffffff / 7fffffff / 80000000 as ids):
+        # the peer answers every ping for a while, then goes silent; drop, slow close, new generation, responsive again
+        for first in (0xfffffffd, 0xfffffffe, 0xffffffff, 0x00000000, 0x00000001, 0x7ffffffe, 0x7fffffff, 0x80000000):
+            out.append(dict(T=T, leader=True, fresh_from=first,
+                            script=SETUP + [["run", 14 * T, pol(rtt=1, silent_from=4 * T + 1, loss_delay=1, reconnect_delay=1)]]))
+            out.append(dict(T=T, leader=True, fresh_from=first, world="real",
+                            script=SETUP + [["run", 12 * T, pol(rtt=T - 1, silent_from=3 * T, loss_delay=T, reconnect_delay=1)]]))
+        # only the FIRST draw fixed (a Manager that draws once and derives the rest sees just this one)
+        for first in ("fffffffd", "ffffffff", "00000000", "7fffffff", "80000000"):
+            out.append(dict(T=T, leader=True, draws=[first],
+                            script=SETUP + [["run", 9 * T, pol(rtt=1, silent_from=5 * T)]]))
+        # the same 4 bytes again and again, each time after the previous ping with them was answered: legal, never a
+        # duplicate; responsive for ever / then silent / across a loss and a reconnect
+        out.append(dict(T=T, leader=True, draws=[A] + [B] * 12, script=SETUP + [["run", 8 * T, pol(rtt=1)]]))
+        out.append(dict(T=T, leader=True, draws=[A] + [B, C] * 6, script=SETUP + [["run", 9 * T, pol(rtt=T - 1, silent_from=4 * T)]]))
+        out.append(dict(T=T, leader=True, draws=[A, B, B, C, B, B, B],
+                        script=SETUP + [["run", 2 * T + 2, pol(rtt=1)], ["lost"], ["adv", 1], ["reconnecting"], ["made"],
+                                        ["run", 6 * T, pol(rtt=1, silent_from=2 * T + 1, loss_delay=1, reconnect_delay=1)]]))
+        # THE EXCLUDED POINT: the random source returns the id of a ping that is still outstanding (the ping of
+        # connector_connection_made is never written, never answered, never retired).  At the first expiry / at a later
+        # expiry / inside the next connector_connection_made.  The model says what the real code does; not judged.
+        out.append(dict(T=T, leader=True, draws=[A, A], script=SETUP + [["run", 6 * T, pol(rtt=None)]]))
+        out.append(dict(T=T, leader=True, draws=[B, C, C, B], script=SETUP + [["run", 7 * T, pol(rtt=1)]]))
+        out.append(dict(T=T, leader=True, draws=[C, B, C],
+                        script=SETUP + [["run", T + 2, pol(rtt=1)], ["lost"], ["adv", 1], ["reconnecting"], ["made"], ["adv", 3 * T]]))
+        out.append(dict(T=T, leader=True, draws=[A, B, B],
+                        script=SETUP + [["run", 5 * T, pol(rtt=None, loss_delay=1, reconnect_delay=1)]]))
+    # long sessions: hundreds of answered pings, then silence; the ids cross 2**32 resp. 2**31 on the way
+    longs = [(4, 260, 0x100000000 - 200), (4, 150, 0x80000000 - 100), (8, 130, 0x100000000 - 64)][:long_sessions]
+    for T, n, first in longs:
+        out.append(dict(T=T, leader=True, fresh_from=first,
+                        script=SETUP + [["run", (n + 4) * T, pol(rtt=1, silent_from=n * T + 1, loss_delay=1, reconnect_delay=1)]]))
+    return out
+
+
+def rand_ids(rng, case, collisions=True):
+    """sometimes: fix the random source of a generated case"""
+    r = rng.random()
+    if r < 0.3:
+        base = rng.choice([0x100000000, 0x100000000, 0x80000000, 0, rng.randrange(1 << 32)])
+        case["fresh_from"] = (base - rng.randrange(0, 7)) % (1 << 32)
+    elif r < 0.36:
+        case["draws"] = ["%08x" % rng.choice([0, 0xffffffff, 0x7fffffff, 0x80000000, 0xfffffffd, rng.randrange(1 << 32)])]
+    elif r < 0.44 and collisions:
+        # a few values drawn over and over: repeats of answered ids, and now and then a duplicate of an outstanding one
+        alphabet = rng.sample([A, B, C, "7fffffff", "80000000"], rng.choice([2, 3]))
+        case["draws"] = [rng.choice(alphabet) for _ in range(rng.randrange(2, 9))]
+    return case
 
 
 def rand_policy(rng, T):
@@ -1132,7 +1317,7 @@ def rand_real_case(rng):
         elif r < 0.4:
             script += [["stop"], ["run", rng.randrange(0, 2 * T), rand_policy(rng, T)]]
             break
-    return dict(T=T, leader=True, world="real", script=script)
+    return rand_ids(rng, dict(T=T, leader=True, world="real", script=script), collisions=False)
 
 
 def rand_case(rng, adversarial=False):
@@ -1168,7 +1353,7 @@ def rand_case(rng, adversarial=False):
         junk = rng.choice([["made"], ["lost"], ["stop"], ["start"], ["please"], ["reconnecting"], ["reconnect"], ["pause"], ["resume"],
                            ["pong", rng.randrange(0, 9)]])
         script.insert(rng.randrange(0, len(script) + 1), junk)
-    return dict(T=T, leader=leader, script=script)
+    return rand_ids(rng, dict(T=T, leader=leader, script=script))
 
 
 def exhaustive(T=4):
@@ -1199,6 +1384,18 @@ def exhaustive(T=4):
                     if world:
                         c["world"] = world
                     out.append(c)
+    # the random source: every first id within 6 of 2**32 and around 0 / 2**31 (the next ones count up from it) x every silence
+    # point, with drop, close and a new generation; every sequence of <= 5 draws over two values (answered repeats and
+    # duplicates of outstanding ids alike) against a responsive and a silent peer
+    for first in list(range(0x100000000 - 6, 0x100000000 + 2)) + list(range(0x80000000 - 3, 0x80000000 + 1)):
+        for silent in range(0, 5 * T + 1):
+            out.append(dict(T=T, leader=True, fresh_from=first % 0x100000000,
+                            script=SETUP + [["run", 10 * T, pol(rtt=1, silent_from=silent, loss_delay=1, reconnect_delay=1)]]))
+    for n in range(1, 6):
+        for bits in range(1 << n):
+            draws = [B if (bits >> i) & 1 else C for i in range(n)]
+            for p in (pol(rtt=1, loss_delay=1, reconnect_delay=1), pol(rtt=1, silent_from=T + 1, loss_delay=1, reconnect_delay=1)):
+                out.append(dict(T=T, leader=True, draws=draws, script=SETUP + [["run", 7 * T, p]]))
     # every pause window [a, a+d) over the first two expiries, responsive peer
     for a in range(0, 2 * T + 2):
         for d in range(1, T + 3):
@@ -1220,6 +1417,7 @@ def cases(rng, tier):
     if tier == "thorough":
         out += exhaustive(4)
         out += exhaustive(8)
+        out += id_corpus(long_sessions=3)[-2:]
     return out
 
 
@@ -1240,6 +1438,10 @@ def search(rng, seconds, seeds):
 
 def shrink(case):
     sc = case["script"]
+    if case.get("draws"):
+        d = case["draws"]
+        for i in range(len(d) - 1, -1, -1):
+            yield dict(case, draws=d[:i] + d[i + 1:])
     for i in range(len(sc) - 1, 2, -1):
         yield dict(case, script=sc[:i] + sc[i + 1:])
     for i, seg in enumerate(sc):
